@@ -476,9 +476,10 @@ def shard(tier, i, n, seed):
 def finish(tier, merged, results):
     oc = merged['outcomes']
     if not merged['violations']:
-        for need in ('path|plain|200', 'path|dotdot|403', 'conditional|exact|304', 'fault|'):
+        for need in ('path|plain|200', 'path|dotdot|403', 'conditional|exact|304', 'fault|isfile', 'fault|open',
+                     'fault|getmtime', 'fault|getsize', 'fault|read'):
             if not any(k.startswith(need) for k in oc):
-                raise common.InternalError('vacuous: no outcome %s' % need)
+                raise common.InternalError('vacuous: no outcome %s (a filesystem seam is not being reached)' % need)
     return {'bounds': {'configs': len(configs(tier)), 'segment_alphabet': 15, 'path_depth': '3 (4 for three configurations)' if tier == 'quick' else '4 (5 for three configurations)',
                        'fault_requests': len(FAULT_REQS), 'fault_answers': ['ENOENT', 'EACCES', 'EIO', 'EISDIR', 'isfile->False'],
                        'deviations': 1 if tier == 'quick' else 2},
